@@ -353,7 +353,9 @@ class MarkdownNormalizer(Renderer):
 
         # GFM checkbox support.
         if hasattr(element, "checked"):
-            children = f"[{'x' if element.checked else ' '}] {children}"  # pyright: ignore
+            # The parser leaves the whitespace after the checkbox at the start of the text;
+            # without wrapping nothing strips it, and every pass would add one more space.
+            children = f"[{'x' if element.checked else ' '}] {children.lstrip()}"  # pyright: ignore
 
         # Wrap the text.
         wrapped_text = self._line_wrapper(
